@@ -248,6 +248,62 @@ func Run(r *core.Run) {
 			r.Class("mutated-invalid")
 		}
 	})
+	// one JWK value used for several decodes (a variable declared outside a loop over keys): after every decode the value must be
+	// the key just read, whatever was read into it before - all ordered pairs and triples of key types
+	{
+		var ks []*keys.Key
+		for _, t := range types {
+			ks = append(ks, keys.New(t, 3), keys.WithLeadingZero(func() string {
+				if t == "Ed25519" {
+					return "P-256"
+				}
+				return t
+			}(), 0))
+		}
+		check := func(id string, seq []*keys.Key) {
+			r.Case(id, func() (f *core.Fail) {
+				var j jwsutil.JWK
+				for step, k := range seq {
+					b, _ := json.Marshal(k.JWKMap())
+					det := map[string]any{"sequence": fmt.Sprint(seq), "step": step}
+					if err := j.UnmarshalJSON(b); err != nil {
+						return &core.Fail{Key: id, What: fmt.Sprintf("step %d: decoding %s into a JWK value used before fails: %v", step, k, err), Detail: det}
+					}
+					want := k.JWKMap()
+					if j.Kty != want["kty"] || j.Crv != want["crv"] {
+						return &core.Fail{Key: id, What: fmt.Sprintf("step %d: after decoding %s the value says kty %q crv %q", step, k, j.Kty, j.Crv), Detail: det}
+					}
+					out, err := j.MarshalJSON()
+					if err != nil {
+						return &core.Fail{Key: id, What: fmt.Sprintf("step %d: MarshalJSON after decoding %s: %v", step, k, err), Detail: det}
+					}
+					var got map[string]any
+					_ = json.Unmarshal(out, &got)
+					for _, m := range []string{"kty", "crv", "x", "y"} {
+						w, has := want[m]
+						if g := got[m]; (has && w != "" && g != w) || (!has && g != nil) {
+							return &core.Fail{Key: id, What: fmt.Sprintf("step %d: %s read into a JWK value used before is written back with %s = %v (expected %v)", step, k, m, g, w), Detail: det}
+						}
+					}
+					if _, err := j.PublicKeyBytes(); err != nil {
+						return &core.Fail{Key: id, What: fmt.Sprintf("step %d: PublicKeyBytes after decoding %s: %v", step, k, err), Detail: det}
+					}
+				}
+				return nil
+			})
+			r.Observe(id)
+		}
+		for a := range ks {
+			for b := range ks {
+				check(fmt.Sprintf("reused-jwk-value/%d-%d", a, b), []*keys.Key{ks[a], ks[b]})
+				if r.Thorough() {
+					for c := range ks {
+						check(fmt.Sprintf("reused-jwk-value/%d-%d-%d", a, b, c), []*keys.Key{ks[a], ks[b], ks[c]})
+					}
+				}
+			}
+		}
+	}
 	r.Sample(map[string]any{"mutation": muts[10].id, "jwk": muts[10].jwk})
 	for _, t := range []string{"P-256", "secp256k1", "P-384", "P-521"} {
 		r.Require("leading-zero-"+t, 5)
